@@ -281,7 +281,71 @@ def comparator_rule(cx, rep, rid):
     rep.floor(rid, "comparators handed to the standard sorts", n, 3)
 
 
+# ---------------------------------------------------------------------------------------------------- C13.14
+def fill_level_rule(cx, rep, rid):
+    """SHA-256 padding: the finaliser writes the 0x80 byte at `buffer[fill]`, which presumes fill <= 63 - a FULL block
+    buffer must have been compressed by whoever filled it.  Decided on the digest writer: every method other than the
+    finaliser that raises the fill level (`+=`, `++` on the field the finaliser indexes the buffer with) is followed, in
+    the same statement list, by the flush `if (fill === 64) { compress; fill = 0 }`.  A method that flushes BEFORE it
+    writes (seed C13-q) can return with fill = 64; the finaliser's `buffer[64] = 0x80` is then dropped silently and the
+    digest of every encoding whose length is a multiple of 64 and ends in a single byte is not SHA-256."""
+    mod = cx.ts("packages/beff-client/src/hash.ts")
+    n = 0
+    for cname, c in sorted(mod.classes.items()):
+        # the finaliser: the method that stores 0x80 at buffer[this.<fill>++]
+        fill = None
+        fin = None
+        for mname, m in c.methods.items():
+            fn = m.get("function")
+            if fn is None:
+                continue
+            for x in twalk(fn):
+                if x["type"] == "AssignmentExpression" and unparen(x["right"]).get("type") == "NumericLiteral" and unparen(x["right"])["value"] == 128:
+                    l = x["left"]
+                    if l.get("type") == "MemberExpression" and l["property"].get("type") == "Computed":
+                        for y in twalk(l["property"]):
+                            if y["type"] == "MemberExpression" and y["object"].get("type") == "ThisExpression":
+                                fill, fin = y["property"].get("value"), mname
+        if fill is None:
+            continue
+
+        def raises(st):
+            for y in twalk(st):
+                if y["type"] == "UpdateExpression" and y["operator"] == "++" and ts_s(y["argument"]) == "this." + fill:
+                    return True
+                if y["type"] == "AssignmentExpression" and y["operator"] in ("+=",) and ts_s(y["left"]) == "this." + fill:
+                    return True
+            return False
+
+        def is_flush(st):
+            if st["type"] != "IfStatement":
+                return False
+            t = ts_s(st["test"])
+            if ("this." + fill) not in t or "64" not in t:
+                return False
+            return any(y["type"] == "AssignmentExpression" and y["operator"] == "=" and ts_s(y["left"]) == "this." + fill and ts_s(y["right"]) == "0" for y in twalk(st["consequent"]))
+
+        for mname, m in sorted(c.methods.items()):
+            fn = m.get("function")
+            if fn is None or mname == fin or fn.get("body") is None:
+                continue
+            blocks = [b for b in twalk(fn) if b["type"] == "BlockStatement"]
+            for b in blocks:
+                sts = b.get("stmts") or []
+                for i, st in enumerate(sts):
+                    if st["type"] in ("IfStatement", "WhileStatement", "ForStatement", "ForOfStatement", "BlockStatement"):
+                        continue       # judged in its own block
+                    if raises(st):
+                        n += 1
+                        ok = any(is_flush(z) for z in sts[i + 1:])
+                        rep.ob(rid, "%s.%s/flush-after-fill" % (cname, mname), ok,
+                               "%s.%s raises the fill level of the block buffer (`this.%s`) and does not compress a full block afterwards in the same statement list: it can return with %s = 64, and the finaliser (%s) then stores the 0x80 padding byte at buffer[64] - outside the block, silently dropped - so the digest of an encoding whose length is a multiple of 64 is not SHA-256 of it" % (cname, mname, fill, fill, fin),
+                               mod.loc(st), sample={"class": cname, "method": mname, "fill_field": fill})
+    rep.floor(rid, "statements that raise the fill level of the digest writer's block buffer", n, 1)
+
+
 REGISTRY = {
+    "C13": [("C13.14", "a method that fills the block buffer compresses a full block before it returns (the padding byte always fits)", fill_level_rule)],
     "C04": [("C04.14", "a comparator handed to a standard sort is a composition of key comparisons (no choice of comparison by a test on the pair)", comparator_rule)],
     "C07": [("C07.17", "a raw intersection node is constructed by the merging smart constructor only (or consumed by the engine on the spot)", raw_intersection_rule),
             ("C07.18", "the union accumulator drops a member only by a payload-precise test", union_absorption_rule)],
